@@ -133,7 +133,8 @@ theorem bcids_count_le (l : List (Ctx × Pkt)) (i : Nat) : (bcids l).count i ≤
 
 theorem run_frame (P : Params) (s : St) (c : Ctx) (p : Pkt) :
     (run P s c p).cap = s.cap ∧ (run P s c p).counter = s.counter ∧ (run P s c p).pending = s.pending ∧
-    (run P s c p).expired = s.expired ∧ (run P s c p).queue = s.queue ∧ (run P s c p).nextId = s.nextId ∧
+    (run P s c p).expired = s.expired ∧ (run P s c p).batches = s.batches ∧ (run P s c p).queue = s.queue ∧
+    (run P s c p).nextId = s.nextId ∧
     (run P s c p).refused = s.refused ∧ (run P s c p).returned = s.returned ∧ (run P s c p).unmatched = s.unmatched ∧
     (run P s c p).completions = s.completions ++ [(c, p)] := by
   unfold run
@@ -194,42 +195,56 @@ theorem run_invR (P : Params) (s : St) (c : Ctx) (p : Pkt) (h : InvR P s) (hfres
           subst this
           exact ⟨c, rfl, hm, List.mem_append_right _ (List.mem_singleton.mpr rfl)⟩
 
-/-- ReapTimeout's loop -/
-theorem reap_fold (P : Params) : ∀ (l : List Ctx) (s : St), InvR P s →
-    (∀ i, (eids l).count i + (cids s.completions).count i ≤ 1) →
-    let s' := l.foldl (fun s c => run P s c (timeoutPkt P)) s
-    InvR P s' ∧ s'.completions = s.completions ++ l.map (fun c => (c, timeoutPkt P)) ∧
-    s'.cap = s.cap ∧ s'.counter = s.counter ∧ s'.pending = s.pending ∧ s'.expired = s.expired ∧ s'.queue = s.queue ∧
-    s'.nextId = s.nextId ∧ s'.refused = s.refused ∧ s'.returned = s.returned ∧ s'.unmatched = s.unmatched
-  | [], s, h, _ => by simp; exact h
-  | c :: l, s, h, hc => by
-    have hfresh : (cids s.completions).count c.id = 0 := by
-      have := hc c.id; simp [eids, List.count_cons] at this; omega
-    obtain ⟨f1, f2, f3, f4, f5, f6, f7, f8, f9, f10⟩ := run_frame P s c (timeoutPkt P)
-    have ih := reap_fold P l (run P s c (timeoutPkt P)) (run_invR P s c _ h hfresh) (by
-      intro i
-      have := hc i
-      rw [f10]
-      simp [eids, cids, List.count_cons, List.count_append] at this ⊢
-      omega)
-    simp only [List.foldl_cons]
-    obtain ⟨i1, i2, i3, i4, i5, i6, i7, i8, i9, i10, i11⟩ := ih
-    refine ⟨i1, ?_, i3.trans f1, i4.trans f2, i5.trans f3, i6.trans f4, i7.trans f5, i8.trans f6, i9.trans f7,
-      i10.trans f8, i11.trans f9⟩
-    rw [i2, f10]; simp
+/-! ### batches -/
 
+def bids (bs : List (List Ctx)) : List Nat := eids bs.flatten
+
+theorem bids_append (bs : List (List Ctx)) (l : List Ctx) (i : Nat) :
+    (bids (bs ++ [l])).count i = (bids bs).count i + (eids l).count i := by
+  simp [bids, eids, List.flatten_append, List.count_append]
+
+theorem eids_eraseIdx : ∀ (l : List Ctx) (k : Nat) (c : Ctx), l[k]? = some c → ∀ i,
+    (eids (l.eraseIdx k)).count i + (if c.id = i then 1 else 0) = (eids l).count i
+  | [], _, _, h, _ => by simp at h
+  | a :: l, 0, c, h, i => by
+    simp at h; subst h
+    simp [eids, List.count_cons]
+  | a :: l, k + 1, c, h, i => by
+    simp at h
+    have := eids_eraseIdx l k c h i
+    simp [eids, List.count_cons] at this ⊢
+    omega
+
+theorem bids_set : ∀ (bs : List (List Ctx)) (b : Nat) (l l' : List Ctx), bs[b]? = some l → ∀ i,
+    (bids (bs.set b l')).count i + (eids l).count i = (bids bs).count i + (eids l').count i
+  | [], _, _, _, h, _ => by simp at h
+  | a :: bs, 0, l, l', h, i => by
+    simp at h; subst h
+    simp [bids, eids, List.count_append]; omega
+  | a :: bs, b + 1, l, l', h, i => by
+    simp at h
+    have := bids_set bs b l l' h i
+    simp [bids, eids, List.count_append] at this ⊢
+    omega
+
+/-- taking one call out of a batch -/
+theorem bids_complete (bs : List (List Ctx)) (b k : Nat) (l : List Ctx) (c : Ctx) (hb : bs[b]? = some l) (hk : l[k]? = some c)
+    (i : Nat) : (bids (bs.set b (l.eraseIdx k))).count i + (if c.id = i then 1 else 0) = (bids bs).count i := by
+  have h1 := bids_set bs b l (l.eraseIdx k) hb i
+  have h2 := eids_eraseIdx l k c hk i
+  omega
 
 /-! ### the invariant -/
 
 structure Inv (P : Params) (s : St) : Prop where
   keysNodup : (keys s.pending).Nodup
   keysNonzero : ∀ k ∈ keys s.pending, k ≠ 0
-  ids : ∀ i, (pids s.pending).count i + (eids s.expired).count i + (cids s.completions).count i + s.refused.count i =
-    if i < s.nextId then 1 else 0
+  ids : ∀ i, (pids s.pending).count i + (eids s.expired).count i + (bids s.batches).count i +
+    (cids s.completions).count i + s.refused.count i = if i < s.nextId then 1 else 0
   R : InvR P s
 
 theorem inv_init (P : Params) (cap : Nat) : Inv P (mkInit cap) := by
-  refine ⟨List.nodup_nil, fun k hk => (by cases hk), fun i => (by simp [mkInit, pids, eids, cids]), ?_⟩
+  refine ⟨List.nodup_nil, fun k hk => (by cases hk), fun i => (by simp [mkInit, pids, eids, cids, bids]), ?_⟩
   exact ⟨rfl, fun i => (by simp [mkInit, bcids]), fun e he => (by rcases he with he | he <;> cases he)⟩
 
 theorem inv_step (P : Params) (hv : Valid P) {s s' : St} {a : Act} (h : Inv P s) (hs : step P s a = some s') : Inv P s' := by
@@ -257,7 +272,7 @@ theorem inv_step (P : Params) (hv : Valid P) {s s' : St} {a : Act} (h : Inv P s)
         · exact h.keysNonzero k h'
       · intro i
         have := h.ids i
-        show (pids ((sq, _) :: s.pending.filter _)).count i + _ + _ + _ = _
+        show (pids ((sq, _) :: s.pending.filter _)).count i + _ + _ + _ + _ = _
         rw [hfil]
         simp only [pids, List.map_cons, List.count_cons] at this ⊢
         by_cases hi : s.nextId = i
@@ -287,7 +302,7 @@ theorem inv_step (P : Params) (hv : Valid P) {s s' : St} {a : Act} (h : Inv P s)
     · rename_i e he
       injection hs with hs; subst hs
       obtain ⟨hmem, hkey⟩ := find_mem he
-      obtain ⟨f1, f2, f3, f4, f5, f6, f7, f8, f9, f10⟩ :=
+      obtain ⟨f1, f2, f3, f4, fb, f5, f6, f7, f8, f9, f10⟩ :=
         run_frame P { s with pending := s.pending.filter (fun e => e.1 != seq) } e.2 p
       have hrem := count_pids_remove s.pending h.keysNodup e hmem
       rw [hkey] at hrem
@@ -299,7 +314,7 @@ theorem inv_step (P : Params) (hv : Valid P) {s s' : St} {a : Act} (h : Inv P s)
       · rw [f3]; exact h.keysNodup.sublist (keys_filter_sublist _ _)
       · rw [f3]; intro k hk; exact h.keysNonzero k ((keys_filter_sublist _ _).subset hk)
       · intro i
-        rw [f3, f4, f10, f6, f7]
+        rw [f3, f4, fb, f10, f6, f7]
         have h1 := h.ids i; have h2 := hrem i
         simp only [cids, List.map_append, List.count_append, List.map_cons, List.map_nil, List.count_cons, List.count_nil] at h1 ⊢
         by_cases hi : e.2.id = i
@@ -322,28 +337,49 @@ theorem inv_step (P : Params) (hv : Valid P) {s s' : St} {a : Act} (h : Inv P s)
         simp [eids, pids]
       show (pids (s.pending.filter (fun e => !decide (now > e.2.dl)))).count i +
         (eids (s.expired ++ (s.pending.filter (fun e => decide (now > e.2.dl))).map (·.2))).count i +
+        (bids s.batches).count i +
         (cids s.completions).count i + s.refused.count i = if i < s.nextId then 1 else 0
       rw [e1, List.count_append]
       omega
-  | reap =>
+  | strip =>
     simp only [step] at hs
     injection hs with hs; subst hs
-    have hpre : ∀ i, (eids s.expired).count i + (cids s.completions).count i ≤ 1 := by
-      intro i; have := h.ids i; split at this <;> omega
-    obtain ⟨r1, r2, r3, r4, r5, r6, r7, r8, r9, r10, r11⟩ :=
-      reap_fold P s.expired { s with expired := [] } ⟨h.R.callbacks, h.R.blockCount, h.R.blockMem⟩ hpre
-    refine ⟨?_, ?_, ?_, r1⟩
-    · rw [r5]; exact h.keysNodup
-    · rw [r5]; exact h.keysNonzero
+    refine ⟨h.keysNodup, h.keysNonzero, ?_, ⟨h.R.callbacks, h.R.blockCount, h.R.blockMem⟩⟩
+    intro i
+    have := h.ids i
+    show (pids s.pending).count i + (eids []).count i + (bids (s.batches ++ [s.expired])).count i +
+      (cids s.completions).count i + s.refused.count i = if i < s.nextId then 1 else 0
+    rw [bids_append]
+    simp [eids] at this ⊢
+    omega
+  | complete b k =>
+    simp only [step] at hs
+    split at hs
+    case h_2 => cases hs
+    rename_i l hb
+    split at hs
+    case h_2 => cases hs
+    rename_i c hk
+    injection hs with hs; subst hs
+    obtain ⟨f1, f2, f3, f4, fb, f5, f6, f7, f8, f9, f10⟩ :=
+      run_frame P { s with batches := s.batches.set b (l.eraseIdx k) } c (timeoutPkt P)
+    have hrem := bids_complete s.batches b k l c hb hk
+    have hfresh : (cids s.completions).count c.id = 0 := by
+      have h1 := h.ids c.id; have h2 := hrem c.id
+      simp at h2
+      split at h1 <;> omega
+    refine ⟨?_, ?_, ?_, ?_⟩
+    · rw [f3]; exact h.keysNodup
+    · rw [f3]; exact h.keysNonzero
     · intro i
-      rw [r5, r6, r2, r8, r9]
-      have := h.ids i
-      have e1 : cids (s.completions ++ s.expired.map (fun c => (c, timeoutPkt P))) = cids s.completions ++ eids s.expired := by
-        simp [cids, eids]
-      show _ + (eids []).count i + (cids (s.completions ++ _)).count i + _ = _
-      rw [e1, List.count_append]
-      simp [eids] at this ⊢
-      omega
+      rw [f3, f4, fb, f10, f6, f7]
+      have h1 := h.ids i; have h2 := hrem i
+      simp only [cids, List.map_append, List.count_append, List.map_cons, List.map_nil, List.count_cons, List.count_nil] at h1 ⊢
+      by_cases hi : c.id = i
+      · simp [hi] at h2 ⊢; omega
+      · have : (c.id == i) = false := by simp [hi]
+        simp [hi, this] at h2 ⊢; omega
+    · exact run_invR P _ c _ ⟨h.R.callbacks, h.R.blockCount, h.R.blockMem⟩ hfresh
   | wake id =>
     simp only [step] at hs
     split at hs
@@ -445,7 +481,7 @@ def demoActs : List Act :=
    .dispatch 65535#16 { errFlag := true, code := 5, cmd := 1001, decodes := none },
    .dispatch 65535#16 { errFlag := false, code := 0, cmd := 1001, decodes := some 7 },
    .dispatch 0#16 { errFlag := false, code := 0, cmd := 1001, decodes := some 7 },
-   .sweep 150, .sweep 201, .reap, .wake 1,
+   .sweep 150, .sweep 201, .strip, .complete 0 0, .wake 1,
    .dispatch 1#16 { errFlag := false, code := 0, cmd := 1001, decodes := some 9 }]
 
 theorem reach_inv (P : Params) (hv : Valid P) {s : St} (hr : Reach P s) : Inv P s := by
